@@ -31,7 +31,7 @@ LEVEL_TEXT = ("Each of ~30 single faults (forcing not covering the window, frame
               "illegal subgrids) is injected into each of 8 base scenarios (quick) plus 400 random bases (thorough); the real start-up must refuse every one before the first step and write no record.")
 LEVEL_NOTE = "Single faults only. 'Refused' = SystemExit with a non-zero code or any other exception raised before the first Model.update; the fault-free base must complete, otherwise the case is void and not counted."
 RULE = ("case = (base, fault). Non-trivial: the base ran and the fault is really present in the files/configuration written (e.g. the unsorted frame times are read back); distinct by (base, fault).")
-MANDATORY = ["refused_before_first_step", "base_forward", "base_reversed", "base_multifile", "base_continuous", "subprocess_exit_status_checked", "fault_presence_verified", "fault_written_over_a_valid_setup"]
+MANDATORY = ["refused_before_first_step", "base_forward", "base_reversed", "base_multifile", "base_continuous", "subprocess_exit_status_checked", "fault_presence_verified", "fault_written_over_a_valid_setup", "base_with_legal_negative_subgrid", "subgrid_fault_with_negative_limits"]
 ASSUMPTIONS = ["single faults (no combinations)"]
 TIMEOUT = {"quick": 1200, "thorough": 3500}
 
@@ -39,7 +39,8 @@ FAULTS = ["forcing_ends_early", "forcing_starts_late", "forcing_starts_late_subs
           "missing_start", "missing_stop", "missing_dt", "stop_on_wrong_side", "releases_all_before_start", "releases_all_at_stop", "releases_all_after_stop", "releases_straddle_window",
           "release_without_position", "missing_config_file", "missing_grid_file", "missing_forcing_file", "missing_release_file",
           "missing_tracker_section", "missing_time_section", "missing_release_section", "missing_output_section", "missing_forcing_section",
-          "subgrid_i0_lt_1", "subgrid_i1_gt_max", "subgrid_i0_ge_i1", "subgrid_j0_lt_1", "subgrid_j1_gt_max", "subgrid_j0_ge_j1", "subgrid_i0_eq_i1"]
+          "subgrid_i0_lt_1", "subgrid_i1_gt_max", "subgrid_i0_ge_i1", "subgrid_j0_lt_1", "subgrid_j1_gt_max", "subgrid_j0_ge_j1", "subgrid_i0_eq_i1",
+          "subgrid_i0_far_negative", "subgrid_j0_far_negative", "subgrid_negative_i1_le_i0", "subgrid_negative_j1_le_j0", "subgrid_i1_minus_imax"]
 
 
 def bases(tier: str, seed: int) -> list[dict[str, Any]]:
@@ -135,6 +136,8 @@ def base_files(b: dict[str, Any], wd: Path, fault: str | None):
     if b["cont"]:
         rel.update(continuous=True, freq=b["freq"] * dt)
     run = dict(start=start, stop=stop, dt=dt, reversed=rev, advection="EF", release=rel, output=dict(period=dt))
+    if b["id"] % 2 and not (fault or "").startswith("subgrid"):
+        run["subgrid"] = [2, -2, 1, -1]  # legal: negative limits count from the far edge
     return w, run, phys
 
 
@@ -159,7 +162,11 @@ def apply_conf_fault(conf: dict[str, Any], fault: str | None, b: dict[str, Any],
         imax, jmax = 16, 12
         conf["grid"]["subgrid"] = dict(subgrid_i0_lt_1=[0, imax - 1, 1, jmax - 1], subgrid_i1_gt_max=[1, imax, 1, jmax - 1], subgrid_i0_ge_i1=[9, 5, 1, jmax - 1],
                                        subgrid_j0_lt_1=[1, imax - 1, 0, jmax - 1], subgrid_j1_gt_max=[1, imax - 1, 1, jmax], subgrid_j0_ge_j1=[1, imax - 1, 8, 3],
-                                       subgrid_i0_eq_i1=[5, 5, 1, jmax - 1])[fault]
+                                       subgrid_i0_eq_i1=[5, 5, 1, jmax - 1],
+                                       # negative limits count from the far edge (documented); further back than the grid is wide is illegal
+                                       subgrid_i0_far_negative=[-(imax + 12), -2, 1, jmax - 1], subgrid_j0_far_negative=[1, imax - 1, -(jmax + 9), -2],
+                                       subgrid_negative_i1_le_i0=[5, -(imax - 4), 1, jmax - 1], subgrid_negative_j1_le_j0=[1, imax - 1, 6, -(jmax - 5)],
+                                       subgrid_i1_minus_imax=[1, -imax, 1, jmax - 1])[fault]
 
 
 def one_run(b: dict[str, Any], fault: str | None, wd: Path, sub: bool):
@@ -239,6 +246,8 @@ def run_case(case: dict[str, Any], wd: Path) -> dict[str, Any]:
     sit["base_reversed" if b["reversed"] else "base_forward"] = 1
     sit["base_multifile"] = int(b["multi"])
     sit["base_continuous"] = int(b["cont"])
+    sit["base_with_legal_negative_subgrid"] = int(b["id"] % 2 == 1 and not fault.startswith("subgrid"))
+    sit["subgrid_fault_with_negative_limits"] = int("negative" in fault or "minus" in fault)
     res, nupd, nwrite, nrec, present, status = one_run(copy.deepcopy(b), fault, wd / ("run" if shared else "fault"), case["subprocess"])
     sit["fault_written_over_a_valid_setup"] = int(shared)
     cnt["fault_runs"] = 1
